@@ -10,7 +10,7 @@
 (* Scores are integers; recorded outputs are fixed point at scale S.         *)
 EXTENDS Prims, TLC
 
-RRFK == 60          \* default reciprocal-rank constant
+RRFK == 60          \* default reciprocal-rank constant (the constant is passed in quarter units k4 = 4 K: any K > 0 is legal)
 \* Recorded outputs are fixed point with S units per 1.0; input scores are integers with U units per 1.0.
 
 \* ---- operational ----
@@ -86,14 +86,14 @@ RankSet(m, id, ascending) ==
   IN Cardinality(better)..(Cardinality(better) + Cardinality(equal) - 1)
 
 RECURSIVE HarmonicFx(_, _, _)
-HarmonicFx(n, k, S) == IF n = 0 THEN 0 ELSE (S \div (k + n - 1)) + HarmonicFx(n - 1, k, S)
+HarmonicFx(n, k4, S) == IF n = 0 THEN 0 ELSE ((4 * S) \div (k4 + 4 * (n - 1))) + HarmonicFx(n - 1, k4, S)
 RECURSIVE SumScores(_)
 SumScores(out) == IF out = <<>> THEN 0 ELSE Head(out)[2] + SumScores(Tail(out))
 
 AsMap(pairs) == [id \in IdsOf(pairs) |-> ScoreIn(pairs, id)]
 
 \* out: sequence of <<id, fixed-point fused score>>, one per key (any order)
-FuseOK(kind, wv, wt, vp, tp, out, S, U) ==
+FuseOK(kind, wv, wt, vp, tp, out, S, U, k4) ==
   LET v == AsMap(vp)  t == AsMap(tp)
       V == DOMAIN v  T == DOMAIN t
       K == IF kind = "min" THEN V \cap T ELSE V \cup T
@@ -103,9 +103,9 @@ FuseOK(kind, wv, wt, vp, tp, out, S, U) ==
                   LET id == out[i][1]  s == out[i][2] IN
                   \E rv \in (IF id \in V THEN RankSet(v, id, TRUE) ELSE {-1}),
                      rt \in (IF id \in T THEN RankSet(t, id, FALSE) ELSE {-1}) :
-                     Abs(s - ((IF rv >= 0 THEN S \div (RRFK + rv) ELSE 0) + (IF rt >= 0 THEN S \div (RRFK + rt) ELSE 0))) <= 2
+                     Abs(s - ((IF rv >= 0 THEN (4 * S) \div (k4 + 4 * rv) ELSE 0) + (IF rt >= 0 THEN (4 * S) \div (k4 + 4 * rt) ELSE 0))) <= 2
              \* every rank of each modality is used exactly once: the total is fixed
-             /\ Abs(SumScores(out) - (HarmonicFx(Cardinality(V), RRFK, S) + HarmonicFx(Cardinality(T), RRFK, S))) <= 2 * (Cardinality(V) + Cardinality(T)) + 2
+             /\ Abs(SumScores(out) - (HarmonicFx(Cardinality(V), k4, S) + HarmonicFx(Cardinality(T), k4, S))) <= 2 * (Cardinality(V) + Cardinality(T)) + 2
         ELSE LET f == FuseMap(kind, wv, wt, v, t) IN
              \A i \in DOMAIN out :
                LET id == out[i][1] IN
